@@ -70,8 +70,12 @@ def narrowing_casts(val, T, member_T=None):
 
     def rec(t):
         if isinstance(t, tuple) and t:
-            if t[0] == "cast" and t[1] in MANT and T in MANT and MANT[t[1]] < MANT[T] and ev.leaves(t[2]):
-                out.append((t[1], t))
+            if t[0] == "cast" and t[1] in MANT and T in MANT and MANT[t[1]] < MANT[T]:
+                inner = t[2]
+                if ev.leaves(inner):
+                    out.append((t[1], t))
+                elif isinstance(inner, tuple) and inner and inner[0] == "c" and not ev._exact_in(inner[1], t[1]):
+                    out.append((t[1], t))   # an inexact constant written in a narrower type than the computation
             for x in t:
                 rec(x)
         elif isinstance(t, ev.Obj):
